@@ -392,7 +392,17 @@ def if_chain_rule(ctx):
         d = "the If node's tag_location is not even bound"
         if loc_bind and blk is not None and blk.get("k") == "block":
             asg = [x for st in blk["stmts"] for x in ([st.get("e")] if st.get("k") == "expr" else []) if x is not None and x.get("k") == "assign" and sir.expr_str(x["l"]).replace(" ", "") == "%s.end" % loc_bind]
-            ok = len(asg) == 1 and sir.expr_str(asg[0]["r"]).startswith("Some(") and "tag_location" in sir.expr_str(asg[0]["r"])
+            def mentions_tag_end(e, depth=0):
+                if any(x.get("k") == "field" and x.get("name") in ("end", "start") and "tag_location" in sir.expr_str(x["base"]) for x in sir.walk(e)) or "tag_location" in sir.expr_str(e):
+                    return True
+                if depth < 2:
+                    for x in sir.walk(e):
+                        if x.get("k") == "path" and len(x["segs"]) == 1:
+                            decl = [st_ for st_ in sir.walk(f.node, into_items=True) if st_.get("k") == "local" and st_["pat"].get("name") == x["segs"][0] and st_.get("init") is not None]
+                            if decl and mentions_tag_end(decl[-1]["init"], depth + 1):
+                                return True
+                return False
+            ok = len(asg) == 1 and sir.expr_str(asg[0]["r"]).startswith("Some(") and mentions_tag_end(asg[0]["r"])
             d = "`%s.end = Some(<end of the new branch's tag>)` %s" % (loc_bind, "follows the append" if ok else "is missing")
         obs.append(ob("C16.loc/if-chain/%s" % (what[0] if what else "branch#%d" % k), ok, ctx.where(f), "appending to %s: %s" % (what[0] if what else "the If node", d),
                       witness=None if ok else "the If node's location stops before its elif/else branches; child locations lie outside their parent's"))
